@@ -172,6 +172,8 @@ pub struct Src {
     pub stream_none: u32,
     // lifecycle
     pub synth_armed: bool,
+    /// a sub-source left the composite without a re-registration: the remaining ones keep their (now sparse) sub-ids
+    pub sparse_sub_ids: bool,
     /// a synthetic event this source announced in a dispatch that then failed: the loop still owes it
     pub synth_owed: bool,
     pub bs_calls: u32,
@@ -237,6 +239,7 @@ impl Src {
             stream: None,
             stream_none: 0,
             synth_armed: false,
+            sparse_sub_ids: false,
             synth_owed: false,
             bs_calls: 0,
             life: LifeDispatch::default(),
@@ -442,6 +445,16 @@ impl World {
             // C08, second half: an operation issued from inside a callback has the effect it would have outside a
             // dispatch. The deferred self-directed disable/update is the one mechanism that exists only inside
             // callbacks; when its accounting goes wrong the effect differs from the same call made outside.
+            // C09: a re-registration that was applied to the source but left the poller with the old key or mask was
+            // not applied where it counts
+            if clause == "C16.exact" && matches!(culprit, "wrong-key" | "wrong-interest-or-mode" | "duplicate-sub-key") && self.prop == "C09" {
+                self.alarms.push(Alarm { clause: "C09.applied_once".into(), culprit: format!("registration-not-effective-in-the-poller-{}", culprit), detail: detail.clone(), step });
+            }
+            // C09: Disable/Remove/Continue also decide whether the lifecycle hooks go on: hooks out of step with the
+            // source's state mean an action was applied in part, or a discarded request was not discarded entirely
+            if self.prop == "C09" && (clause == "C14.once" || clause == "C14.set_size" || clause == "C14.not_for_inactive") {
+                self.alarms.push(Alarm { clause: "C09.applied_once".into(), culprit: format!("lifecycle-hooks-out-of-step-{}", culprit), detail: detail.clone(), step });
+            }
             if clause.starts_with("C09.") && self.cov_inops != 0 {
                 self.alarms.push(Alarm { clause: "C08.effect_as_outside".into(), culprit: format!("{}-{}", &clause[4..], culprit), detail, step });
             }
